@@ -1711,6 +1711,11 @@ class Engine(object):
                 return obj.fields
             if attr == "__class__":
                 return obj.cls
+            if getattr(obj, "assumed_state", False):
+                # the object's state was assumed by a contract (representation invariant), not
+                # built by the code: an attribute the invariant does not mention needs a contract,
+                # it is not evidence of an AttributeError
+                raise Unsupported("self.%s is not covered by the representation invariant the contract assumes" % attr)
             raise PyRaise(AttributeError, (attr,))
         if isinstance(obj, PyClass):
             m = obj.lookup(attr)
